@@ -1873,7 +1873,7 @@ class SBytes:
 
     def lstrip(self, chars=None):
         if chars is None:
-            raise Unsupported("lstrip whitespace on symbolic bytes")
+            chars = b" \t\n\r\x0b\x0c"  # bytes.strip() default: ASCII whitespace
         items = self.items
         i = 0
         while i < len(items) and bool(s_or(*[items[i] == c for c in chars])):
